@@ -256,7 +256,10 @@ static Textbook textbook_hllc(const Case &c) {
   T.SL = vL + dSL;
   T.SR = vR + dSR;
   T.Sstar = (pR - pL + rL * vL * dSL - rR * vR * dSR) / (rL * dSL - rR * dSR);
-  T.ordered = T.SL <= T.Sstar && T.Sstar <= T.SR;
+  // strictly ordered: a contact speed that coincides with an outer wave
+  // within rounding (k = 64) leaves no star region
+  const LD otol = 64 * (LD)EPS * (fabsl(vL) + fabsl(dSL) + fabsl(vR) + fabsl(dSR));
+  T.ordered = T.SL + otol < T.Sstar && T.Sstar < T.SR - otol;
   const bool left = T.Sstar >= 0;
   const LD rK = left ? rL : rR, pK = left ? pL : pR, vK = left ? vL : vR, SK = left ? T.SL : T.SR;
   const LD dSK = left ? dSL : dSR;
@@ -338,7 +341,8 @@ static CodeBranch hllc_code_branch(const HLLCRiemannSolver &S, const Case &c) {
     b.region = SL < 0. ? 0 : -1;
   else
     b.region = SR > 0. ? 0 : 1;
-  b.ordered = SL <= Sstar && Sstar <= SR;
+  const double otol = 64. * EPS * (std::fabs(vL) + std::fabs(SLmvL) + std::fabs(vR) + std::fabs(SRmvR));
+  b.ordered = SL + otol < Sstar && Sstar < SR - otol;
   return b;
 }
 /// (ordered only if both the code's double values and the long double
@@ -1013,6 +1017,8 @@ static void check_continuity_case(Ctx &X, const Case &c) {
       if (iterative) {
         dp = 4e-8 * (double)ref.pstar;
         du = 0.5 * (double)(ref.ddelta(0, ref.ystar) + ref.ddelta(1, ref.ystar)) * dp;
+        if (!std::isfinite(du) || !std::isfinite(dp)) // star pressure below the range
+          du = dp = 0.;
       }
       std::vector< double > sp;
       for (const auto &w : waves)
